@@ -88,3 +88,8 @@ chk("C11", "history-based PBT: generated compilation histories (builds, pure que
     "Each generated history is executed in a fresh interpreter (subprocess) under PYTHONHASHSEED 0/1/4242 and ends by compiling the target twice; both texts must equal the text of a pristine process that only compiled the target. An in-process rule-based state machine additionally checks that every (program, options) always compiles to the text it compiled to first, also after failing compilations, and that repeated Router.compile_program is stable (finding F12 lists where it is not).",
     "Trusts subprocess isolation and the worker script (public PyTeal calls only).",
     "DESIGN.md section 2 C11")
+
+chk("C15", "PBT over generated Python source files (markers per line, multi-module, subroutines, huge leading blank regions) compiled with/without source maps in a fresh subprocess; map checked line by line against the generator's own record, JSON round-trip and an independent base64-VLQ decoder; VLQ codec round-trip PBT",
+    "Source files are generated with a known marker constant on every interesting line; the compiled TEAL must be byte-identical with and without the map, the R3 map must have one in-order entry per TEAL line pointing at existing lines of existing files, every marker's TEAL line must be attributed to the line it was written on, the v3 JSON must decode back to the same associations both with PyTeal's reader and with an independently written VLQ decoder, and annotated TEAL must reduce to the plain TEAL when comments are stripped.",
+    "Trusts the generator's own record of where markers were written; algod-based PC maps are out of scope.",
+    "DESIGN.md section 2 C15")
